@@ -177,6 +177,12 @@ func helperMain(args []string) {
 	case "rel": // rel <name> <path> <arg>: one call, then report what it left behind (release.go)
 		relHelper(args[1], args[2], args[3])
 		return
+	case "script": // script: the interpreter of holdseq.go (commands on stdin)
+		scriptHelper()
+		return
+	case "seq": // seq: the interpreter of seq.go (commands on stdin)
+		seqHelper()
+		return
 	case "stress": // stress <dir> <proc> <goroutines> <iters> <seed> <npaths>
 		stressWorker(args[1:])
 	case "hist": // hist <dir> <proc> <goroutines> <iters> <seed> <mode>
